@@ -177,10 +177,16 @@ func ProjectNum(f *big.Float) J {
 	return J{"dec": r.RatString()}
 }
 
+// runes lists the code points of s; code points that have a multi-letter abstract
+// name in the specification's alphabet (acute, LF, CR, ...) are reported by that name.
 func runes(s string) []any {
 	out := []any{}
 	for _, r := range s {
-		out = append(out, string(r))
+		if n, ok := abstractNames[string(r)]; ok {
+			out = append(out, n)
+		} else {
+			out = append(out, string(r))
+		}
 	}
 	return out
 }
